@@ -11,8 +11,8 @@ USES_FACTS = True
 DRIVER = "shootmodel_det"
 
 MANIFEST = dict(
-    text="Lean 4 theorems over a model of the Generate loop with the long-lived generator state made explicit (new, map; enum/rest keep none) and of MergeSources on parsed files: reset (per-type output = fresh-generator output; parameterised by which fields the code carries, partial + witnesses for today's four leaks), combined run = one process per type, permutation, merged file = declarations + own doc comments + first-occurrence imports under the first header; every Generator field of the CURRENT source is classified (regenerated table), and the `-file=` value is looked at only where types are listed and the output is named, never inside a per-type step (C08_file_flag_sites, regenerated table). Tied to the code by running the rebuilt shoot on generated multi-type packages (new/map/enum/rest) in seven invocation styles (list, one process per type, permuted list, -file=, -file= -sep, -type=*, from the parent directory) and comparing the files at AST level.",
-    note="The theorem C08_proposed_repair_perm is about the PROPOSED repair notes/proposed/deps-first-and-shadow-aio.patch (not applied; codeRepair = noRepair), not about the code at HEAD. Lean kernel + standard axioms; model tied by the correspondence run (rebuilt shoot, harness/cmd/declcmp) and by Gen/Facts.lean (genStateFields, genStateWrites, mergeImportKey, fileFlagSites). go/parser, go/printer, goimports are externals.",
+    text="Lean 4 theorems over a model of the Generate loop with the long-lived generator state made explicit (new, map; enum/rest keep none) and of MergeSources on parsed files: reset (per-type output = fresh-generator output; parameterised by which fields the code carries, partial + witnesses for today's four leaks), combined run = one process per type, permutation, merged file = declarations + own doc comments + first-occurrence imports under the first header; every Generator field of the CURRENT source is classified (regenerated table), every per-type field - all maps, slices and sets among them - is re-made by an UNCONDITIONAL top-level statement on the path MakeData takes for every type (C08_collections_reset over the regenerated tables genStateResets / genStateCalls: a reset moved under a condition breaks it), the caches are assigned only by their designated methods (C08_derived_sites) and there is no package-level variable besides the template texts and main's usage table (C08_no_package_state, regenerated table genPkgVars); the `map:\"X\"` tag map of `shoot map` is part of the state model (parameter mapTag) with C08_tag_leak_relevance: whatever is carried, a tag can reach another type only through a member name the two types share, and the `-file=` value is looked at only where types are listed and the output is named, never inside a per-type step (C08_file_flag_sites, regenerated table). Tied to the code by running the rebuilt shoot on generated multi-type packages (new/map/enum/rest) in seven invocation styles (list, one process per type, permuted list, -file=, -file= -sep, -type=*, from the parent directory) and comparing the files at AST level.",
+    note="The theorem C08_proposed_repair_perm is about the PROPOSED repair notes/proposed/deps-first-and-shadow-aio.patch (not applied; codeRepair = noRepair), not about the code at HEAD. Lean kernel + standard axioms; model tied by the correspondence run (rebuilt shoot, harness/cmd/declcmp) and by Gen/Facts.lean (genStateFields, genStateWrites, genStateResets, genStateCalls, genPkgVars, mergeImportKey, fileFlagSites). go/parser, go/printer, goimports are externals.",
     technique="Lean 4 proof (state machine fold, list induction) + differential model/implementation correspondence",
     design="5/C08")
 
@@ -316,9 +316,10 @@ def run(ctx, obl):
     res.hist("packages", "total", len(pks))
     res.rule = ("seeded multi-type packages: `new` (2-8 struct trees from the C02 grammar: marks, defaults, generics, private embeds, cross embeds between listed "
                 "types, type-level getter/setter switch; flags -getset/-json/-opt), `map` (2-5 type pairs, plain or shoot-new on either side, with / without "
-                "usable constructor), `enum` and `rest` (2-5 types). Each package is generated in five directories: `-type=A,B,..`, one process per type, a permuted "
+                "usable constructor, `map:\"G\"` tags on fields of some plain source types - the field names come from one pool, so other types have the same names untagged), `enum` and `rest` (2-5 types). Each package is generated in five directories: `-type=A,B,..`, one process per type, a permuted "
                 "list, `-file=`, `-file= -sep`, `-file=` run from the parent directory with [dir] (+ `-type=*` when a go:generate line is present). Shapes present in every run: a shoot "
-                "type shared by several embedders with named types (time.Time, a local struct, pointers to it) in its accessor signatures; enum types whose constants are "
+                "type shared by several embedders with named types (time.Time, a local struct, pointers to it) in its accessor signatures; `map` source types that share field names "
+                "of which only some carry a `map:` tag (rename, `-`, a tag one level down in an embedded struct), tagged types first and last in the list; enum types whose constants are "
                 "partly or wholly declared in another file than the type; rest headers directives naming a header in spellings that differ only in case. Per package: "
                 "`-file= -sep` against one process per type, type by type (map / enum / rest / new without -getset: the per-type output is a function of the type alone),  combined vs per-process (per type: constructor "
                 "parameters, accessor interfaces, JSON getter/setter lists, map plans, and AST equality of the files), the per-process run against the model, the "
